@@ -33,6 +33,12 @@ impl SwiftField for Field34F {
     where
         Self: Sized,
     {
+        if !input.is_ascii() {
+            return Err(ParseError::InvalidFormat {
+                message: "Field 34F must contain only ASCII characters".to_string(),
+            });
+        }
+
         // Field34F format: 3!a[1!a]15d (currency + optional indicator + amount)
         if input.len() < 4 {
             // Minimum: 3 chars currency + 1 digit amount
